@@ -1,14 +1,27 @@
 import GenjaxModel.Proofs.Hmm
 import GenjaxModel.Proofs.Kalman
+import GenjaxModel.Proofs.KalmanMatrixReal
 /-!
 # C20 — the exact state-space baselines are exact
 
 HMM part (`Model/Hmm.lean`, linear domain; the code computes the logarithms): statements hold over
 every commutative semiring / field, every number of states and symbols, every stochastic or
 sub-stochastic matrix (zeros allowed), every observation sequence of length T ≥ 1.
-Kalman part (`Model/Kalman.lean`): scalar predict/update step; the matrix recursion and the RTS
-smoother are tied to the code by the dense-Gaussian conditioning oracle of the correspondence run
-only (partial, see DESIGN.md).
+Kalman part, scalar (`Model/Kalman.lean`, executable): predict/update step (`*_partial` theorems,
+kept).
+Kalman part, MATRIX case (`Proofs/KalmanMatrix.lean`, `Proofs/KalmanMatrixReal.lean`; block
+`C20_kalman_matrix_*` at the end of this file): the matrix update of `kalman_filter` is now PROVED
+to be exact Bayesian conditioning for every state dimension, observation dimension and field:
+covariance forms (Joseph, symmetric), precision form `P'⁻¹ = P⁻¹ + Cᵀ R⁻¹ C`, completing the square
+for every `x`, the determinant/normaliser identity `det P · det R = det S · det P'`, Bayes' rule for
+the multivariate normal densities / log-densities over ℝ (the `log_marginal` increment), preservation
+of positive (semi)definiteness along the whole run (every `inv` in the code is a genuine inverse),
+reduction of the matrix definitions to the executable scalar model at d = 1, and the RTS smoother
+step as the same conditioning step with `(C, R, y) := (A, Q, x_{t+1})`.  All invertibility
+assumptions are explicit hypotheses (`det _ ≠ 0`); nothing relies on `A⁻¹ = 0` for singular `A`.
+What remains tied to the code only by the dense-Gaussian oracle of the correspondence run: the
+float arithmetic and the `lax.scan` plumbing of the matrix recursion (the Lean definitions
+`KalmanMatrix.kalmanFilter`/`smCov` mirror the Python line by line but are not executed).
 -/
 namespace Genjax
 
@@ -78,5 +91,234 @@ theorem C20_kalman_precision_partial {K : Type} [Field K] (c r y : K) (s : Gauss
 open Kalman in
 theorem C20_kalman_predict_partial {K : Type} [Field K] (a q : K) (s : Gauss K) :
     (predict a q s).m = a * s.m ∧ (predict a q s).P = a ^ 2 * s.P + q := predict_moments a q s
+
+/-! ──────────────────────────────────────────────────────────────────────────────────────────────
+    BEGIN block `C20_kalman_matrix_*` — the MATRIX Kalman update is exact Bayesian conditioning
+    (definitions `KalmanMatrix.innov/innovCov/gain/updMean/updCov/predMean/predCov/smGain/smMean/
+    smCov` mirror src/genjax/extras/state_space.py:434-600 line by line)
+    ────────────────────────────────────────────────────────────────────────────────────────────── -/
+
+section KalmanMatrixBlock
+open Matrix KalmanMatrix
+variable {K : Type*} [Field K] {n p : Type*} [Fintype n] [DecidableEq n] [Fintype p] [DecidableEq p]
+
+/-- Covariance update, all equivalent forms (needs only `S = C P Cᵀ + R` invertible):
+    `P' = (1 - K C) P`, the Joseph form `P' = (1 - K C) P (1 - K C)ᵀ + K R Kᵀ`, and for symmetric
+    `P`, `R` the symmetric form `P' = P - K S Kᵀ`; `P'` is then symmetric. -/
+theorem C20_kalman_matrix_cov_forms (C : Matrix p n K) (P : Matrix n n K) (R : Matrix p p K)
+    (hS : (innovCov C P R).det ≠ 0) :
+    updCov C P R = (1 - gain C P R * C) * P ∧
+    updCov C P R =
+      (1 - gain C P R * C) * P * (1 - gain C P R * C)ᵀ + gain C P R * R * (gain C P R)ᵀ ∧
+    (P.IsSymm → R.IsSymm →
+      updCov C P R = P - gain C P R * innovCov C P R * (gain C P R)ᵀ ∧ (updCov C P R).IsSymm) :=
+  ⟨updCov_eq_one_sub_mul C P R, updCov_joseph C P R hS.isUnit, fun hPs hRs =>
+    ⟨updCov_eq_sub_gain_innovCov_gainT C P R hPs hRs hS.isUnit, updCov_isSymm C P R hPs hRs⟩⟩
+
+example : (innovCov KalmanMatrix.Example.C KalmanMatrix.Example.P KalmanMatrix.Example.R).det ≠ 0 ∧
+    KalmanMatrix.Example.P.IsSymm ∧ KalmanMatrix.Example.R.IsSymm :=
+  ⟨KalmanMatrix.Example.hyps.2.2.2.2, KalmanMatrix.Example.hyps.1, KalmanMatrix.Example.hyps.2.1⟩
+
+/-- PRECISION (information) form = "posterior ∝ prior × likelihood" on the level of matrices:
+    for invertible `P`, `R`, `S` the filtered covariance is invertible,
+    `P'⁻¹ = P⁻¹ + Cᵀ R⁻¹ C`, `P'⁻¹ m' = P⁻¹ m + Cᵀ R⁻¹ y`, and `K = P' Cᵀ R⁻¹`. -/
+theorem C20_kalman_matrix_precision (C : Matrix p n K) (P : Matrix n n K) (R : Matrix p p K)
+    (hP : P.det ≠ 0) (hR : R.det ≠ 0) (hS : (innovCov C P R).det ≠ 0) (m : n → K) (y : p → K) :
+    (updCov C P R).det ≠ 0 ∧
+    (updCov C P R)⁻¹ = P⁻¹ + Cᵀ * R⁻¹ * C ∧
+    (updCov C P R)⁻¹ *ᵥ updMean C P R m y = P⁻¹ *ᵥ m + (Cᵀ * R⁻¹) *ᵥ y ∧
+    gain C P R = updCov C P R * Cᵀ * R⁻¹ :=
+  ⟨(updCov_det_isUnit C P R hP.isUnit hR.isUnit hS.isUnit).ne_zero,
+   updCov_inv C P R hP.isUnit hR.isUnit hS.isUnit,
+   updCov_inv_mulVec_updMean C P R hP.isUnit hR.isUnit hS.isUnit m y,
+   gain_eq_updCov_mul C P R hR.isUnit hS.isUnit⟩
+
+/-- the hypotheses hold on a concrete instance with `d_state = 2 ≠ d_obs = 1` … -/
+example : KalmanMatrix.Example.P.det ≠ 0 ∧ KalmanMatrix.Example.R.det ≠ 0 ∧
+    (innovCov KalmanMatrix.Example.C KalmanMatrix.Example.P KalmanMatrix.Example.R).det ≠ 0 :=
+  KalmanMatrix.Example.hyps.2.2
+
+/-- COMPLETING THE SQUARE, matrix form (supersedes `C20_kalman_update_bayes_exponent_partial`,
+    which is the case `n = p = 1` and is kept).  For symmetric invertible `P`, `R` and invertible
+    `S`, for EVERY state `x` (and every `m`, `y`), with `qf M v = vᵀ M v`:
+    `(x-m)ᵀ P⁻¹ (x-m) + (y-Cx)ᵀ R⁻¹ (y-Cx) = (x-m')ᵀ P'⁻¹ (x-m') + (y-Cm)ᵀ S⁻¹ (y-Cm)`
+    where `m'`, `P'`, `S`, `y - C m` are the quantities computed by the code: the exponent of
+    prior(x)·likelihood(y|x) equals the exponent of posterior(x)·marginal(y).  All four inverses are
+    genuine: `det P' ≠ 0` is the first conjunct of `C20_kalman_matrix_precision`. -/
+theorem C20_kalman_matrix_update_bayes_exponent (C : Matrix p n K) (P : Matrix n n K)
+    (R : Matrix p p K) (hPs : P.IsSymm) (hRs : R.IsSymm)
+    (hP : P.det ≠ 0) (hR : R.det ≠ 0) (hS : (innovCov C P R).det ≠ 0) (m x : n → K) (y : p → K) :
+    qf P⁻¹ (x - m) + qf R⁻¹ (y - C *ᵥ x) =
+      qf (updCov C P R)⁻¹ (x - updMean C P R m y) + qf (innovCov C P R)⁻¹ (innov C m y) :=
+  update_completes_square C P R hPs hRs hP.isUnit hR.isUnit hS.isUnit m x y
+
+example : KalmanMatrix.Example.P.IsSymm ∧ KalmanMatrix.Example.R.IsSymm ∧
+    KalmanMatrix.Example.P.det ≠ 0 ∧ KalmanMatrix.Example.R.det ≠ 0 ∧
+    (innovCov KalmanMatrix.Example.C KalmanMatrix.Example.P KalmanMatrix.Example.R).det ≠ 0 :=
+  KalmanMatrix.Example.hyps
+
+/-- NORMALISER (supersedes `C20_kalman_update_bayes_normaliser_partial`, kept): the Gaussian
+    normalising constants of prior·likelihood and marginal·posterior agree,
+    `det P · det R = det S · det P'` (only `S` invertible is needed). -/
+theorem C20_kalman_matrix_update_bayes_normaliser (C : Matrix p n K) (P : Matrix n n K)
+    (R : Matrix p p K) (hS : (innovCov C P R).det ≠ 0) :
+    P.det * R.det = (innovCov C P R).det * (updCov C P R).det :=
+  det_mul_det C P R hS.isUnit
+
+/-- … and the theorem has content there: it computes `det P' = 1` from `det P = det S = 3`,
+    `det R = 1` without ever inverting a matrix -/
+example : (updCov KalmanMatrix.Example.C KalmanMatrix.Example.P KalmanMatrix.Example.R).det = 1 := by
+  have h := C20_kalman_matrix_update_bayes_normaliser KalmanMatrix.Example.C KalmanMatrix.Example.P
+    KalmanMatrix.Example.R KalmanMatrix.Example.hyps.2.2.2.2
+  rw [KalmanMatrix.Example.P_det, KalmanMatrix.Example.R_det, KalmanMatrix.Example.S_det] at h
+  linarith
+
+/-- BAYES' RULE FOR THE DENSITIES over ℝ: for positive definite `P` and `R` (no further
+    hypotheses), for all `x`, `y`:
+    `N(x; m, P) · N(y; C x, R) = N(y - C m; 0, S) · N(x; m', P')`.
+    The first factor on the right is exactly what the code adds (in log form) to `log_marginal`,
+    the second is the returned filtered distribution. -/
+theorem C20_kalman_matrix_update_bayes_density (C : Matrix p n ℝ) (P : Matrix n n ℝ)
+    (R : Matrix p p ℝ) (hP : P.PosDef) (hR : R.PosDef) (m x : n → ℝ) (y : p → ℝ) :
+    gaussPdf m P x * gaussPdf (C *ᵥ x) R y =
+      gaussPdf 0 (innovCov C P R) (innov C m y) * gaussPdf (updMean C P R m y) (updCov C P R) x :=
+  update_bayes_density_posDef C P R hP hR m x y
+
+example : KalmanMatrix.ExampleReal.P.PosDef ∧ KalmanMatrix.ExampleReal.R.PosDef :=
+  ⟨KalmanMatrix.ExampleReal.P_posDef, KalmanMatrix.ExampleReal.R_posDef⟩
+
+/-- the same with explicit hypotheses (symmetric, positive determinants) -/
+theorem C20_kalman_matrix_update_bayes_density_det (C : Matrix p n ℝ) (P : Matrix n n ℝ)
+    (R : Matrix p p ℝ) (hPs : P.IsSymm) (hRs : R.IsSymm) (hP : 0 < P.det) (hR : 0 < R.det)
+    (hS : 0 < (innovCov C P R).det) (m x : n → ℝ) (y : p → ℝ) :
+    gaussPdf m P x * gaussPdf (C *ᵥ x) R y =
+      gaussPdf 0 (innovCov C P R) (innov C m y) * gaussPdf (updMean C P R m y) (updCov C P R) x :=
+  update_bayes_density C P R hPs hRs hP hR hS m x y
+
+/-- log form, with `logGaussPdf = jax.scipy.stats.multivariate_normal.logpdf`:
+    `logpdf(x; m, P) + logpdf(y; Cx, R) = logpdf(innovation; 0, S) + logpdf(x; m', P')`, i.e. the
+    increment `log_marginal += logpdf(innovation, 0, innovation_cov)` is `log p(y_t | y_{1:t-1})`. -/
+theorem C20_kalman_matrix_log_marginal_increment (C : Matrix p n ℝ) (P : Matrix n n ℝ)
+    (R : Matrix p p ℝ) (hP : P.PosDef) (hR : R.PosDef) (m x : n → ℝ) (y : p → ℝ) :
+    logGaussPdf m P x + logGaussPdf (C *ᵥ x) R y =
+      logGaussPdf 0 (innovCov C P R) (innov C m y) +
+        logGaussPdf (updMean C P R m y) (updCov C P R) x :=
+  update_bayes_logpdf C P R (posSemidef_isSymm hP.posSemidef) (posSemidef_isSymm hR.posSemidef)
+    hP.det_pos hR.det_pos (innovCov_posDef C P R hP.posSemidef hR).det_pos m x y
+
+/-- `logGaussPdf` is the logarithm of `gaussPdf` whenever `det Σ > 0` -/
+theorem C20_kalman_matrix_logpdf_is_log_pdf {ι : Type*} [Fintype ι] [DecidableEq ι] (μ : ι → ℝ)
+    (Sig : Matrix ι ι ℝ) (x : ι → ℝ) (h : 0 < Sig.det) :
+    Real.log (gaussPdf μ Sig x) = logGaussPdf μ Sig x := log_gaussPdf μ Sig x h
+
+/-- PREDICT (any field): `A P Aᵀ + Q` is symmetric for symmetric `P`, `Q`, and
+    `vᵀ (A P Aᵀ + Q) v = (Aᵀ v)ᵀ P (Aᵀ v) + vᵀ Q v` for every `v`
+    (the covariance of `A x + w`, `x ~ (m, P)`, `w ~ (0, Q)` independent). -/
+theorem C20_kalman_matrix_predict (A P Q : Matrix n n K) :
+    (P.IsSymm → Q.IsSymm → (predCov A P Q).IsSymm) ∧
+    ∀ v : n → K, qf (predCov A P Q) v = qf P (Aᵀ *ᵥ v) + qf Q v :=
+  ⟨predCov_isSymm A P Q, qf_predCov A P Q⟩
+
+/-- one step over ℝ preserves positive (semi)definiteness, and `S` is positive definite (hence the
+    `inv` in the code is a genuine inverse) as soon as `R` is -/
+theorem C20_kalman_matrix_step_posDef (A Q : Matrix n n ℝ) (C : Matrix p n ℝ) (R : Matrix p p ℝ)
+    (P : Matrix n n ℝ) :
+    (P.PosSemidef → Q.PosSemidef → (predCov A P Q).PosSemidef) ∧
+    (P.PosSemidef → Q.PosDef → (predCov A P Q).PosDef) ∧
+    (P.PosSemidef → R.PosDef → (innovCov C P R).PosDef ∧ (updCov C P R).PosSemidef) ∧
+    (P.PosDef → R.PosDef → (updCov C P R).PosDef) :=
+  ⟨predCov_posSemidef A P Q, predCov_posDef A P Q,
+   fun hP hR => ⟨innovCov_posDef C P R hP hR, updCov_posSemidef C P R hP hR.posSemidef
+      (posDef_isUnit_det (innovCov_posDef C P R hP hR))⟩,
+   updCov_posDef C P R⟩
+
+/-- THE WHOLE RUN (`KalmanMatrix.kalmanFilter` = initial update followed by the scan of
+    predict+update, as in the code): for `P0`, `Q` positive semidefinite and `R` positive definite
+    every returned covariance is positive semidefinite and every innovation covariance the code
+    inverts is positive definite; the output has one entry per observation. -/
+theorem C20_kalman_matrix_run_posSemidef (A Q : Matrix n n ℝ) (C : Matrix p n ℝ)
+    (R : Matrix p p ℝ) (hQ : Q.PosSemidef) (hR : R.PosDef) (m0 : n → ℝ) (P0 : Matrix n n ℝ)
+    (h0 : P0.PosSemidef) (ys : List (p → ℝ)) :
+    (kalmanFilter A Q C R m0 P0 ys).length = ys.length ∧
+    (innovCov C P0 R).PosDef ∧
+    ∀ s ∈ kalmanFilter A Q C R m0 P0 ys,
+      s.2.PosSemidef ∧ (innovCov C (predCov A s.2 Q) R).PosDef :=
+  ⟨kalmanFilter_length A Q C R m0 P0 ys, kalmanFilter_posSemidef A Q C R hQ hR m0 P0 h0 ys⟩
+
+/-- … and positive definite when `P0`, `Q`, `R` are, so that every step of the run satisfies the
+    hypotheses of `C20_kalman_matrix_update_bayes_density` -/
+theorem C20_kalman_matrix_run_posDef (A Q : Matrix n n ℝ) (C : Matrix p n ℝ)
+    (R : Matrix p p ℝ) (hQ : Q.PosDef) (hR : R.PosDef) (m0 : n → ℝ) (P0 : Matrix n n ℝ)
+    (h0 : P0.PosDef) (ys : List (p → ℝ)) :
+    ∀ s ∈ kalmanFilter A Q C R m0 P0 ys, s.2.PosDef ∧ (predCov A s.2 Q).PosDef :=
+  fun s hs =>
+    have h := kalmanFilter_posDef A Q C R hQ hR m0 P0 h0 ys s hs
+    ⟨h, predCov_posDef A s.2 Q h.posSemidef hQ⟩
+
+/-- d_state = d_obs = 1: the matrix definitions ARE the executable scalar model
+    `Model/Kalman.lean` (`sc a` = the 1×1 matrix `!![a]`, `sv a` = the vector `![a]`), so the
+    theorems above specialise to the model that the driver runs; in particular the scalar
+    completing-the-square identity follows from the matrix one. -/
+theorem C20_kalman_matrix_reduces_to_scalar_model {F : Type} [Field F] (a q c r y m P : F) :
+    sc a = !![a] ∧ sv m = ![m] ∧
+    innovCov (sc c) (sc P) (sc r) = sc (Kalman.innovCov c r ⟨m, P⟩) ∧
+    updMean (sc c) (sc P) (sc r) (sv m) (sv y) = sv (Kalman.update c r y ⟨m, P⟩).m ∧
+    updCov (sc c) (sc P) (sc r) = sc (Kalman.update c r y ⟨m, P⟩).P ∧
+    predMean (sc a) (sv m) = sv (Kalman.predict a q ⟨m, P⟩).m ∧
+    predCov (sc a) (sc P) (sc q) = sc (Kalman.predict a q ⟨m, P⟩).P :=
+  ⟨sc_eq a, sv_eq m, innovCov_one c P r m, updMean_one c P r m y, updCov_one c P r m y,
+   predMean_one a q m P, predCov_one a q m P⟩
+
+/-- the scalar exponent identity re-derived from the matrix theorem at `n = p = 1` -/
+theorem C20_kalman_matrix_scalar_corollary {F : Type} [Field F] (c r y x : F) (s : Kalman.Gauss F)
+    (hP : s.P ≠ 0) (hr : r ≠ 0) (hS : Kalman.innovCov c r s ≠ 0) :
+    s.P⁻¹ * (x - s.m) ^ 2 + r⁻¹ * (y - c * x) ^ 2 =
+      (Kalman.update c r y s).P⁻¹ * (x - (Kalman.update c r y s).m) ^ 2 +
+        (Kalman.innovCov c r s)⁻¹ * (y - c * s.m) ^ 2 :=
+  scalar_completes_square_of_matrix c r y x s hP hr hS
+
+example : ((⟨0, 2⟩ : Kalman.Gauss ℚ).P ≠ 0) ∧ (1 : ℚ) ≠ 0 ∧
+    Kalman.innovCov (1 : ℚ) 1 ⟨0, 2⟩ ≠ 0 := by
+  simp [Kalman.innovCov]; norm_num
+
+/-- RTS SMOOTHER STEP = the same conditioning step with `(C, R, y) := (A, Q, x_{t+1})`:
+    the smoother gain is the Kalman gain of "observing" `x_{t+1} = A x_t + w`, the smoothed mean is
+    the corresponding filtered mean evaluated at the smoothed mean of `x_{t+1}` (tower property),
+    and — for symmetric `P`, `Q` and invertible predicted covariance — the smoothed covariance is
+    (conditional covariance `P - G A P`) + `G Pˢ_{t+1} Gᵀ` (law of total covariance). -/
+theorem C20_kalman_matrix_smoother_is_conditioning (A P Q Ps : Matrix n n K) (m ms : n → K) :
+    smGain A P Q = gain A P Q ∧
+    smMean A P Q m ms = updMean A P Q m ms ∧
+    (P.IsSymm → Q.IsSymm → (predCov A P Q).det ≠ 0 →
+      smCov A P Q Ps = updCov A P Q + smGain A P Q * Ps * (smGain A P Q)ᵀ) ∧
+    (P.IsSymm → Q.IsSymm → Ps.IsSymm → (smCov A P Q Ps).IsSymm) ∧
+    smCov A P Q (predCov A P Q) = P ∧ smMean A P Q m (predMean A m) = m :=
+  ⟨smGain_eq_gain A P Q, smMean_eq_updMean A P Q m ms,
+   fun hP hQ hS => smCov_eq_updCov_add A P Q hP hQ hS.isUnit Ps,
+   fun hP hQ hPs => smCov_isSymm A P Q hP hQ hPs, smCov_self A P Q, smMean_self A P Q m⟩
+
+/-- the backward kernel of the smoother is the exact conditional of `x_t` given `x_{t+1} = z`
+    (and `y_{1:t}`): for all `x`, `z`
+    `N(x; m, P) · N(z; A x, Q) = N(z; A m, P⁻) · N(x; m + G (z - A m), P - G A P)`
+    — exponents and normalisers, in any field. -/
+theorem C20_kalman_matrix_smoother_backward_kernel (A P Q : Matrix n n K)
+    (hPs : P.IsSymm) (hQs : Q.IsSymm) (hP : P.det ≠ 0) (hQ : Q.det ≠ 0)
+    (hS : (predCov A P Q).det ≠ 0) (m x z : n → K) :
+    qf P⁻¹ (x - m) + qf Q⁻¹ (z - A *ᵥ x) =
+        qf (P - smGain A P Q * A * P)⁻¹ (x - smMean A P Q m z) +
+          qf (predCov A P Q)⁻¹ (z - predMean A m) ∧
+    P.det * Q.det = (predCov A P Q).det * (P - smGain A P Q * A * P).det :=
+  ⟨smoother_completes_square A P Q hPs hQs hP.isUnit hQ.isUnit hS.isUnit m x z,
+   smoother_det_mul_det A P Q hS.isUnit⟩
+
+/-- the smoothed covariance stays positive semidefinite over ℝ -/
+theorem C20_kalman_matrix_smoother_posSemidef (A P Q Ps : Matrix n n ℝ) (hP : P.PosSemidef)
+    (hQ : Q.PosDef) (hPs : Ps.PosSemidef) : (smCov A P Q Ps).PosSemidef :=
+  smCov_posSemidef A P Q Ps hP hQ.posSemidef
+    (posDef_isUnit_det (predCov_posDef A P Q hP hQ)) hPs
+
+end KalmanMatrixBlock
+
+/-! END block `C20_kalman_matrix_*` -/
 
 end Genjax
